@@ -90,6 +90,8 @@ type Exec struct {
 	drawSeq   int
 	notes     []string
 	panicStack []*frame
+	model     map[string]uint64
+	noModel   bool
 	regions   []string
 }
 
@@ -114,6 +116,11 @@ func (e *Exec) assume(c *Term) {
 		return
 	}
 	e.pc = append(e.pc, c)
+	if e.model != nil {
+		if v, ok := e.evalUnderModel(c); !ok || !v {
+			e.model = nil
+		}
+	}
 }
 
 // branch decides a symbolic condition, forking when both sides are feasible.
@@ -137,12 +144,60 @@ func (e *Exec) branch(cond *Term) bool {
 		return d
 	}
 	e.pos++
-	a1 := e.solver.Check(e.pc, cond)
-	a0 := e.solver.Check(e.pc, nc)
-	if a1 == Unknown || a0 == Unknown {
-		e.inconcl = true
+	// model-guided feasibility: the side the current model takes is feasible without a query
+	var f1, f0 bool
+	if e.model == nil && !e.noModel {
+		if a := e.solver.Check(e.pc, nil); a == Sat {
+			e.model = e.solver.Model(e.tc)
+		} else {
+			e.noModel = true
+			if a == Unknown {
+				e.inconcl = true
+			}
+		}
 	}
-	f1, f0 := a1 != Unsat, a0 != Unsat
+	mv, known := e.evalUnderModel(cond)
+	if known {
+		if mv {
+			f1 = true
+			a0 := e.solver.Check(e.pc, nc)
+			if a0 == Unknown {
+				e.inconcl = true
+			}
+			f0 = a0 != Unsat
+			// we take the true side: the model stays valid
+		} else {
+			f0 = true
+			a1 := e.solver.Check(e.pc, cond)
+			if a1 == Unknown {
+				e.inconcl = true
+			}
+			f1 = a1 != Unsat
+			if f1 {
+				// we take the true side: fetch a model for pc ∧ cond (still asserted)
+				if a1 == Sat {
+					e.model = e.solver.Model(e.tc)
+				} else {
+					e.model, e.noModel = nil, true
+				}
+			}
+		}
+	} else {
+		a1 := e.solver.Check(e.pc, cond)
+		f1 = a1 != Unsat
+		if a1 == Unknown {
+			e.inconcl = true
+		}
+		if !f1 {
+			f0 = true // pc is satisfiable, so the other side is
+		} else {
+			a0 := e.solver.Check(e.pc, nc)
+			if a0 == Unknown {
+				e.inconcl = true
+			}
+			f0 = a0 != Unsat
+		}
+	}
 	switch {
 	case f1 && f0:
 		alt := make([]bool, len(e.decisions)+1)
@@ -162,6 +217,18 @@ func (e *Exec) branch(cond *Term) bool {
 		return false
 	}
 	panic(pathEnd{"infeasible"})
+}
+
+func (e *Exec) evalUnderModel(c *Term) (val bool, ok bool) {
+	if e.model == nil {
+		return false, false
+	}
+	defer func() {
+		if r := recover(); r != nil {
+			val, ok = false, false
+		}
+	}()
+	return Eval(c, e.model, map[*Term]uint64{}) != 0, true
 }
 
 // guard forks into a program panic when ok can be false.
@@ -820,18 +887,18 @@ func (e *Exec) ptrOf(v Value) *Ptr {
 }
 
 func (e *Exec) checkWindow(p *Ptr) {
-	if p.WinLo == nil || len(p.Path) == 0 {
+	if !p.Unsafe || len(p.Path) == 0 {
 		return
 	}
 	idx := p.Path[len(p.Path)-1].Idx
 	if idx == nil {
 		return
 	}
-	if !p.Unsafe {
-		return
-	}
-	ok := e.tc.BAnd(e.tc.Sle(p.WinLo, idx), e.tc.Slt(idx, p.WinHi))
-	e.guard(ok, "oob-unsafe", "unsafe access outside the slice it was derived from")
+	// Oracle for unchecked (unsafe) accesses: the access must stay inside the allocation the pointer
+	// was derived from. Harness inputs are exactly-sized allocations, so this is "inside the input".
+	a := e.arrayAt(Loc{Obj: p.Obj, Path: p.Path[:len(p.Path)-1]})
+	ok := e.tc.BAnd(e.tc.Sle(e.c64(0), idx), e.tc.Slt(idx, e.c64(int64(len(a.E)))))
+	e.guard(ok, "oob-unsafe", "unchecked access outside the allocation (input buffer)")
 }
 
 func (e *Exec) load(p *Ptr, t types.Type) Value {
